@@ -155,6 +155,21 @@ func containsSyncPool(t types.Type, depth int) bool {
 		if o := x.Obj(); o != nil && o.Pkg() != nil && o.Pkg().Path() == "sync" && o.Name() == "Pool" {
 			return true
 		}
+		// a typed wrapper around a pool (struct{ p sync.Pool }, generic or not) is a pool
+		if st, ok := x.Underlying().(*types.Struct); ok {
+			for i := 0; i < st.NumFields(); i++ {
+				if containsSyncPool(st.Field(i).Type(), depth+1) {
+					return true
+				}
+			}
+		}
+		return false
+	case *types.Struct:
+		for i := 0; i < x.NumFields(); i++ {
+			if containsSyncPool(x.Field(i).Type(), depth+1) {
+				return true
+			}
+		}
 		return false
 	case *types.Map:
 		return containsSyncPool(x.Elem(), depth+1)
